@@ -91,6 +91,32 @@ CLAIMED = {
               "bijection) is the solver's. Trusted base: rustc (dev profile), z3 4.8.12 / cvc5 1.0, the QF_BV "
               "encoding of 'valid connected commuting D-set' and 'isomorphism' in engine/gen6.py, and the native "
               "replay driver native/verif_c06.rs. Outside the claim: larger sizes / dimensions.")),
+    "C07": dict(
+        design_ref="DESIGN.md §4 C07",
+        engine="gen7",
+        quick_cmd="python3 engine/gen7.py check --tier quick",
+        thorough_cmd="python3 engine/gen7.py check --tier thorough",
+        replay="python3 engine/gen7.py replay {path}",
+        technique=("the generator is executed from the current tree on every 2D D-set up to the size bound (the output of "
+                   "the C06-checked D-set generator) and every geometry; the universally quantified part — over ALL "
+                   "branching assignments of each D-set — is decided by SMT (z3 QF_LIRA with exact rational curvature, "
+                   "every 7th verdict re-run with cvc5): unsat(exists an admissible assignment of the requested "
+                   "geometry that is equivalent under no automorphism to an output); sat models are re-evaluated with "
+                   "exact rationals against a fresh native run before they are reported"),
+        text=("For every connected complete 2D D-set with at most 6 (thorough: 8) chambers and each of the four "
+              "geometry settings the real DSyms generator is run. Ground, per output: it lives on the input D-set, "
+              "branching constant on 2-orbits, every degree >= 3, curvature of the requested sign (exact rationals), "
+              "spherical outputs have branching <= 7 and an orbifold on the list of good orbifolds, hyperbolic outputs "
+              "are minimally hyperbolic, no two outputs equivalent under an automorphism of the D-set, numbered "
+              "consecutively, 'all' = disjoint union of the three. By the solver, per D-set and geometry, over ALL "
+              "integer branching assignments with degrees >= 3 (up to 43): every curvature-zero assignment / every "
+              "minimally hyperbolic assignment / every good spherical assignment with branching <= 7 is equivalent "
+              "under an automorphism to an output. Outside the claim: larger D-sets, branching numbers above 43."),
+        note=("Orbits, automorphisms, exact curvature and the orbifold symbol are recomputed in engine/gen7.py, "
+              "independently of the crate; the list of good spherical orbifolds is the one the property names ('the "
+              "generator's fixed list'), transcribed. The inputs are the D-sets produced by the D-set generator, whose "
+              "completeness up to the same size is the C06 check. Trusted base: rustc (release), z3 4.8.12 / cvc5 1.0, "
+              "the encoding in engine/gen7.py.")),
     "C10": dict(
         design_ref="DESIGN.md §4 C10",
         text=("Bounded model checking of every FreeWord operation (new/from/empty, six product forms, *=, inverse, "
@@ -119,12 +145,11 @@ CLAIMED = {
               "from row 0 returns to row 0, every representative traced from row 0 ends in its row (ground checks), "
               "and the table has exactly [G:H] rows: a valid table has at most [G:H] rows, and the solver shows that "
               "no transitive action on more points (up to 9, thorough 10) satisfies the relators with the subgroup "
-              "fixing a point. NOT decided: arbitrary presentations and subgroup words. One recorded finding "
-              "(known_findings.txt): H = <aba, b> in D_3 / (2,3,3) yields a 2-row table violating a relator."),
+              "fixing a point. NOT decided: arbitrary presentations and subgroup words."),
         note=("coset_table's code is never modelled: for an input-free configuration its execution is a plain run; the "
               "solver's part is the index. Trusted base: rustc (release profile), z3 4.8.12 / cvc5 1.0, the QF_BV "
-              "encoding in engine/gen12.py + gen11.py, native/verif_c11.rs. Two defects found by this check were "
-              "repaired in /repo (fix: commits e3c92cb, b94bde8); a third is recorded, not repaired.")),
+              "encoding in engine/gen12.py + gen11.py, native/verif_c11.rs. Three defects found by this check were "
+              "repaired in /repo (fix: commits e3c92cb, b94bde8, f87fc90).")),
     "C12": dict(
         design_ref="DESIGN.md §4 C12",
         engine="gen12",
@@ -188,7 +213,6 @@ CLAIMED = {
 
 NOT_APPLICABLE = {
     "C03": "canonical form runs through Traversal (HashSet + BTreeMap + VecDeque); symbolic execution does not finish for 2 chambers",
-    "C07": "generator filter builds orbifold symbols as Strings (fmt), needs automorphisms and a back-tracking stack",
     "C08": "curvature/orbifold_symbol go through Traversal, oriented_cover, HashSet and String",
     "C09": "Boundary is a HashMap, words live in BTreeMap/BTreeSet; oracle is a group isomorphism, not a bounded first-order statement",
     "C13": "HashMap/HashSet keyed by Vec<usize>; inputs are C11/C12 objects; oracle is a group isomorphism",
@@ -246,6 +270,13 @@ def main():
             "serves_properties": ["C06"],
             "kind_free_text": "native run of the input-free generator from the current tree + SMT-LIB (QF_BV) queries over "
                               "the universe of D-sets and over bijections, z3 with cvc5 cross-check, native replay",
+        }, {
+            "name": "gen7",
+            "path": "engine/gen7.py",
+            "serves_properties": ["C07"],
+            "kind_free_text": "native run of the D-symbol generator on every 2D D-set up to the size bound + ground checks with "
+                              "exact rationals + SMT-LIB (QF_LIRA) completeness queries over all branching assignments, z3 "
+                              "with cvc5 cross-check",
         }, {
             "name": "gen11",
             "path": "engine/gen11.py",
